@@ -321,9 +321,9 @@ func checkMarshaled(r *Run, rc *RuleCtx, T *types.Named, sumFn, resetFn *ssa.Fun
 	// restore sites: hash.(marshalable).UnmarshalBinary(pad), directly or through a module helper
 	// that does exactly that with two of its parameters.
 	type rsite struct {
-		in   ssa.Instruction
-		h    *types.Var
-		pad  *types.Var
+		in  ssa.Instruction
+		h   *types.Var
+		pad *types.Var
 	}
 	paramIdx := func(fn *ssa.Function, v ssa.Value) int {
 		for i, pa := range fn.Params {
@@ -496,9 +496,9 @@ func nameOfVar(v *types.Var) string {
 func checkPools(r *Run, rc *RuleCtx, T *types.Named, resetTo *ssa.Function) {
 	p := r.P
 	type spec struct {
-		acq, put   string
-		ctor       string // package path of the hash constructor
-		size, blk  int64
+		acq, put  string
+		ctor      string // package path of the hash constructor
+		size, blk int64
 	}
 	for _, sp := range []spec{{"AcquireSHA1", "PutSHA1", "crypto/sha1", 20, 64}, {"AcquireSHA256", "PutSHA256", "crypto/sha256", 32, 64}} {
 		acq, put := p.Hmac.Func(sp.acq), p.Hmac.Func(sp.put)
